@@ -390,7 +390,11 @@ def progfuzz(prop, tier, seed, replay=None):
         sh(["cargo", "build", "-q"], cwd=ws)
         res_path = os.path.join(out, "replay_result.json")
         pr = sh([exe, "--prop", prop, "--tier", tier, "--seed", str(seed),
-                 "--out", res_path, "--replay", replay, "--only", base], check=False)
+                 "--out", res_path, "--replay", replay, "--only", base], check=False,
+                extra_env={k: str(v) for k, v in (replay_data.get("proc_config") or {}).items()})
+        if pr.returncode == 3:
+            return dict(replay=True, failed=True, detail=dict(replayed=1, failed=1, signature="%s:deadlock" % prop,
+                                                              failures=[dict(kind="deadlock", what="the replayed case deadlocks again")]))
         if pr.returncode == 1:
             r = json.load(open(res_path))
             return dict(replay=True, failed=True, detail=r)
@@ -421,12 +425,33 @@ def progfuzz(prop, tier, seed, replay=None):
             extra = {k: str(v) for k, v in pc.items()}
             pr = sh([exe, "--prop", prop, "--tier", tier, "--seed", str(seed),
                      "--cases", str(tcfg["cases"]), "--out", res_path], check=False, extra_env=extra)
+            dl_path = res_path + ".deadlock.json"
+            if pr.returncode == 3 and os.path.exists(dl_path):
+                # every thread of the runner was blocked for >= 10 s with a case outstanding: deadlock in the code under test
+                dl = json.load(open(dl_path))
+                bases = dl.get("bases") or []
+                mp = sh([exe, "--prop", prop, "--members-of", ",".join(bases), "--out", res_path + ".tmp"], check=False, extra_env=extra)
+                try:
+                    mem = json.loads(mp.stdout.strip().splitlines()[-1])
+                except Exception:
+                    mem = dict(members=[], program_text="")
+                v = dict(property=prop, base=(bases or ["?"])[0], seed=seed, program_text=mem["program_text"], ref_ast="",
+                         input=json.loads(dl.get("input") or "{}"), input_text="process config %s\n%s" % (pc, (dl.get("ops") or dl.get("input") or "")[:3000]),
+                         failures=[dict(variant="?", entry="?", pool=None, perturb_seed=0, kind="deadlock", mismatches=[],
+                                        panic_msg="run() did not return: no progress for %ss and no thread of the process consumed CPU time (%s idle windows of 5 s)"
+                                        % (dl.get("no_progress_s"), dl.get("idle_cpu_windows_of_5s")))],
+                         signature="%s:deadlock" % prop, shrunk=False, entries=[], members=mem["members"], ops=dl.get("ops"), proc_config=pc)
+                results.append(dict(evaluations=0, runs=0, nontrivial=0, too_big=0, distribution={"deadlocked_runner_processes": 1}, samples=[],
+                                    violations=[v], infra_errors=[], known=[]))
+                continue
             if not os.path.exists(res_path):
                 sys.stderr.write(pr.stdout[-4000:])
                 raise Inconclusive("runner exited with %d (%s)" % (pr.returncode, pc))
             r = json.load(open(res_path))
             if pc:
                 r["distribution"]["process_config:" + ",".join("%s=%s" % kv for kv in sorted(pc.items()))] = r["evaluations"]
+                for v in r["violations"]:
+                    v["proc_config"] = pc
             if feats:
                 r["distribution"]["build_config:ascent features=" + feats] = r["evaluations"]
                 # the second build runs the same (program, input) cases: not counted again as distinct cases
